@@ -43,8 +43,46 @@ type c19 struct {
 }
 
 func isNoEvalRead(e *Env, v ssa.Value) bool {
+	_, field := e.noEvalField()
 	p, ok := e.C.PathOf(v)
-	return ok && len(p.Fields) > 0 && p.Fields[len(p.Fields)-1] == "noEval"
+	return ok && len(p.Fields) > 0 && p.Fields[len(p.Fields)-1] == field
+}
+
+// noEvalField: by role, the "do not evaluate" flag of the loader's options: the
+// boolean field of a struct of package dag that the exported LoadWithoutEval
+// (the loader whose contract is exactly that) sets to true. Returns the
+// options type's name and the field's name.
+func (e *Env) noEvalField() (string, string) {
+	if e.noEvalT != "" {
+		return e.noEvalT, e.noEvalF
+	}
+	e.noEvalT, e.noEvalF = "buildOpts", "noEval"
+	f := e.FnQuiet("internal/dag", "LoadWithoutEval")
+	if f == nil {
+		return e.noEvalT, e.noEvalF
+	}
+	n := 0
+	var tn, fn string
+	for _, b := range f.Blocks {
+		for _, in := range b.Instrs {
+			st, ok := in.(*ssa.Store)
+			if !ok {
+				continue
+			}
+			fa, ok := st.Addr.(*ssa.FieldAddr)
+			if !ok {
+				continue
+			}
+			if bv, isC := ir.ConstBool(st.Val); isC && bv {
+				n++
+				tn, fn = typesName(derefT(fa.X.Type())), ir.FieldNameOf(fa.X.Type(), fa.Field)
+			}
+		}
+	}
+	if n == 1 {
+		e.noEvalT, e.noEvalF = tn, fn
+	}
+	return e.noEvalT, e.noEvalF
 }
 
 // evalExpr: v is true only when evaluation is licensed.
@@ -53,7 +91,12 @@ func (c *c19) evalExpr(v ssa.Value, depth int) bool {
 	switch x := v.(type) {
 	case *ssa.UnOp:
 		if x.Op.String() == "!" {
-			return isNoEvalRead(c.e, x.X)
+			return c.noEvalExpr(x.X, depth+1)
+		}
+	case *ssa.Call:
+		// a one-expression predicate of the options (`func (o buildOpts) evaluates() bool { return !o.noEval }`)
+		if rv := onlyReturn(c.e, x); rv != nil && depth < 6 {
+			return c.evalExpr(rv, depth+1)
 		}
 	case *ssa.Parameter:
 		return c.paramIsEval(x, depth+1)
@@ -67,6 +110,40 @@ func (c *c19) evalExpr(v ssa.Value, depth int) bool {
 		return len(ir.StoresTo(x)) > 0
 	}
 	return false
+}
+
+// noEvalExpr: v is true only when evaluation is forbidden: the flag itself, or a
+// one-expression predicate returning it.
+func (c *c19) noEvalExpr(v ssa.Value, depth int) bool {
+	v = ir.Resolve(v)
+	if isNoEvalRead(c.e, v) {
+		return true
+	}
+	switch x := v.(type) {
+	case *ssa.UnOp:
+		if x.Op.String() == "!" {
+			return c.evalExpr(x.X, depth+1)
+		}
+	case *ssa.Call:
+		if rv := onlyReturn(c.e, x); rv != nil && depth < 6 {
+			return c.noEvalExpr(rv, depth+1)
+		}
+	}
+	return false
+}
+
+// onlyReturn: the value returned by a call of a straight-line repository
+// function with a single result, or nil.
+func onlyReturn(e *Env, c *ssa.Call) ssa.Value {
+	g := c.Call.StaticCallee()
+	if g == nil || !e.P.Funcs[g] || len(g.Blocks) != 1 {
+		return nil
+	}
+	rt, ok := g.Blocks[0].Instrs[len(g.Blocks[0].Instrs)-1].(*ssa.Return)
+	if !ok || len(rt.Results) != 1 {
+		return nil
+	}
+	return rt.Results[0]
 }
 
 func (c *c19) paramIsEval(p *ssa.Parameter, depth int) bool {
@@ -106,7 +183,7 @@ func (c *c19) licensed(in ssa.Instruction) bool {
 		if l.Kind != "val" {
 			continue
 		}
-		if !l.Pol && isNoEvalRead(c.e, l.V) {
+		if !l.Pol && c.noEvalExpr(l.V, 0) {
 			return true
 		}
 		if l.Pol && c.evalExpr(l.V, 0) {
@@ -190,7 +267,7 @@ func runC19(e *Env) {
 			if f.Package() != dagPkg || f.Parent() != nil {
 				continue
 			}
-			noEval, has := buildOptsNoEval(f)
+			noEval, has := buildOptsNoEval(e, f)
 			if !has {
 				continue
 			}
@@ -370,7 +447,17 @@ func shortName(f *ssa.Function) string {
 }
 
 // buildOptsNoEval: f stores a constant into the noEval field of a buildOpts literal.
-func buildOptsNoEval(f *ssa.Function) (noEval bool, has bool) {
+func buildOptsNoEval(e *Env, f *ssa.Function) (noEval bool, has bool) {
+	optsT, optsF := e.noEvalField()
+	// a literal of the options type: the flag is what it stores there, false when it stores nothing
+	lit := false
+	for _, b := range f.Blocks {
+		for _, in := range b.Instrs {
+			if al, ok := in.(*ssa.Alloc); ok && typesName(derefT(al.Type())) == optsT && f.Object() != nil {
+				lit = true
+			}
+		}
+	}
 	for _, b := range f.Blocks {
 		for _, in := range b.Instrs {
 			st, ok := in.(*ssa.Store)
@@ -378,13 +465,16 @@ func buildOptsNoEval(f *ssa.Function) (noEval bool, has bool) {
 				continue
 			}
 			fa, ok := st.Addr.(*ssa.FieldAddr)
-			if !ok || ir.FieldNameOf(fa.X.Type(), fa.Field) != "noEval" || !strings.HasSuffix(ir.NamedType(fa.X.Type()), ".buildOpts") {
+			if !ok || ir.FieldNameOf(fa.X.Type(), fa.Field) != optsF || typesName(derefT(fa.X.Type())) != optsT {
 				continue
 			}
 			if bv, ok := ir.ConstBool(st.Val); ok {
 				return bv, true
 			}
 		}
+	}
+	if lit {
+		return false, true
 	}
 	return false, false
 }
